@@ -353,6 +353,22 @@ def design_level(v, pid, tier):
         add_mc(v, mc_cached('MC_Control', 'MC_Control.cfg', workers=1), 'Control.tla lemmas: arbitration over 9^3 proposal triples, inclusive timer window, StartLimitCurrent root => current law = limit')
 
 
+def campaign_part(v, pid, tier, seed, what):
+    """the part of the shared solver campaign that speaks about property `pid` (recorded simulations judged instant by instant by
+    Trace_Solver): its failing clauses become violations of `pid`; used by checks whose main driver calls the objects directly"""
+    c = campaign(tier, seed)
+    v.states += c['states']
+    v.transitions += c['transitions']
+    v.traces += c['n_traces']
+    for tid, fails in c['fails'].items():
+        mine = [f for f in fails if prop_of(f) == pid]
+        if mine:
+            tr = c['failing_traces'].get(tid, {})
+            v.violation({'clauses': mine, 'trace': tid, 'meta': c['meta'].get(tid), 'elems': tr.get('elems'), 'load': tr.get('load'),
+                         'ctrls': tr.get('ctrls'), 'stops': tr.get('stops')})
+    v.extra['simulated'] = {'what': what, 'traces': c['n_traces'], 'recorded_instants': c['instants'], 'families': c['families']}
+
+
 def run_prop(pid, tier, seed, text, known=None):
     v = Verdict(pid, tier, seed)
     design_level(v, pid, tier)
